@@ -79,6 +79,17 @@ func (t *Teamserver) ListenerStart(ListenerType int, info any) error {
 		}
 	}
 
+	// an external c2 endpoint belongs to one listener: a second one must not be listed for it
+	// (removing either of them would take the endpoint away from the other)
+	if ListenerType == handlers.LISTENER_EXTERNAL {
+		if !t.EndpointAdd(&Endpoint{
+			Endpoint: ExtConfig.Config.Endpoint,
+			Function: ExtConfig.Request,
+		}) {
+			return errors.New("endpoint is already in use")
+		}
+	}
+
 	t.Listeners = append(t.Listeners, &Listener{
 		Name:   ListenerName,
 		Type:   ListenerType,
@@ -95,14 +106,7 @@ func (t *Teamserver) ListenerStart(ListenerType int, info any) error {
 		SmbConfig.Start()
 
 	case handlers.LISTENER_EXTERNAL:
-		var endpoint = new(Endpoint)
-
 		ExtConfig.Start()
-
-		endpoint.Endpoint = ExtConfig.Config.Endpoint
-		endpoint.Function = ExtConfig.Request
-
-		t.EndpointAdd(endpoint)
 	}
 
 	return nil
@@ -416,17 +420,23 @@ func (t *Teamserver) ListenerServiceExc2Add(Name, ExEndpoint string, client *ser
 			return errors.New("listener with that name already exist")
 		}
 	}
+
+	// the endpoint belongs to one listener: a second one must not be listed for it (removing
+	// either of them would take the endpoint away from the other)
+	if !t.EndpointAdd(&Endpoint{
+		Endpoint: ExtConfig.Config.Endpoint,
+		Function: ExtConfig.Request,
+	}) {
+		t.ListenersMtx.Unlock()
+		return errors.New("endpoint is already in use")
+	}
+
 	t.Listeners = append(t.Listeners, &Listener{
 		Name:   Name,
 		Type:   handlers.LISTENER_EXTERNAL,
 		Config: ExtConfig,
 	})
 	t.ListenersMtx.Unlock()
-
-	t.EndpointAdd(&Endpoint{
-		Endpoint: ExtConfig.Config.Endpoint,
-		Function: ExtConfig.Request,
-	})
 
 	return nil
 }
